@@ -299,6 +299,31 @@ fn collect_files(dir: &std::path::Path) -> std::collections::BTreeMap<String, Ve
     out
 }
 
+/// the text with one digit of an integer literal changed (same length, still a valid program)
+fn same_length_variant(text: &str) -> Option<String> {
+    let b = text.as_bytes();
+    for i in 0..b.len() {
+        let c = b[i];
+        if !(b'1'..=b'8').contains(&c) {
+            continue;
+        }
+        // the first digit of a literal: not part of an identifier or of a longer number, and not
+        // inside a comment line
+        let prev = if i == 0 { b' ' } else { b[i - 1] };
+        if prev.is_ascii_alphanumeric() || prev == b'_' {
+            continue;
+        }
+        let line_start = text[..i].rfind('\n').map_or(0, |p| p + 1);
+        if text[line_start..i].contains("//") {
+            continue;
+        }
+        let mut v = b.to_vec();
+        v[i] = c + 1;
+        return String::from_utf8(v).ok();
+    }
+    None
+}
+
 /// the real binary, history in one working directory: `prev` is compiled first under the same
 /// file name, then `text`; every file the tool writes for `text` must equal what it writes in a
 /// fresh directory
@@ -345,6 +370,36 @@ pub fn binary_history_case(ctx: &Ctx, exe: &std::path::Path, prev: &str, text: &
         }
     }
     let b2 = collect_files(&hist2);
+    // third history: an edit that keeps the length of the file (one digit of a literal changed)
+    // compiled first under the same path
+    let mut b3 = None;
+    if let Some(v) = same_length_variant(text) {
+        let hist3 = ctx.scratch.join(format!("hist{tag:016x}_edit"));
+        let _ = std::fs::create_dir_all(&hist3);
+        if run(&hist3, &v) && run(&hist3, text) {
+            b3 = Some((collect_files(&hist3), v));
+        }
+        let _ = std::fs::remove_dir_all(&hist3);
+    }
+    if let Some((b3, v)) = &b3 {
+        for (name, content) in &a {
+            match b3.get(name) {
+                Some(c) if c == content => {}
+                other => {
+                    let x = String::from_utf8_lossy(content).into_owned();
+                    let y = other.map(|c| String::from_utf8_lossy(c).into_owned()).unwrap_or_else(|| "<file missing>".into());
+                    let _ = std::fs::remove_dir_all(&fresh);
+                    let _ = std::fs::remove_dir_all(&hist);
+                    let _ = std::fs::remove_dir_all(&hist2);
+                    return CaseResult::Fail(Failure {
+                        kind: "binary-history".into(),
+                        summary: format!("`scc codegen --print-ir` writes a different {name} when the same file was compiled before with one digit of a literal different (same length): {}", first_diff(&x, &y)),
+                        details: json!({"source": text, "compiled_before": v, "file": name, "scenario": "same path, same length, one digit edited"}),
+                    });
+                }
+            }
+        }
+    }
     let _ = std::fs::remove_dir_all(&fresh);
     let _ = std::fs::remove_dir_all(&hist);
     let _ = std::fs::remove_dir_all(&hist2);
@@ -427,7 +482,7 @@ pub fn check(ctx: &Ctx) -> i32 {
     let start = Instant::now();
     let mut ev = Evidence::default();
     let k = ctx.tier.pick(8, 32);
-    ev.rule = format!("(a) each generated program is compiled in {k} fresh processes (`sccv stage`, i.e. the repository's library stages; each process draws fresh hash seeds; environment variables and working directory varied) and the concatenation of printed Core, uniquified Core, focused Core, AxCut, linearized AxCut and the assembly of all three backends must be byte-identical; (b) histories: a program is compiled alone, twice, and after 1..3 other programs in one process; all outputs must be identical after renumbering the generated label counters (lab<n>, <Type>_<n>) by first occurrence. Non-trivial: (a) >= 3 polymorphic type instances in the source (hash order can matter), (b) history length >= 2; distinct by source hash. (c) the real `scc` binary: `compile`, `focus`, `shrink`, `linearize` three times each with varied environment and working directory must print identical text, and the assembly files written by `scc codegen rv64|x86-64` in two different working directories must be identical; and every file written by `scc codegen --print-ir` for a program must be the same in a fresh directory and in a directory where another program was compiled before under the same file name (the same path overwritten, and `a/prog.sc` then `b/prog.sc` with both sources older than the first output). Hash seeds cannot be chosen: processes sample them.");
+    ev.rule = format!("(a) each generated program is compiled in {k} fresh processes (`sccv stage`, i.e. the repository's library stages; each process draws fresh hash seeds; environment variables and working directory varied) and the concatenation of printed Core, uniquified Core, focused Core, AxCut, linearized AxCut and the assembly of all three backends must be byte-identical; (b) histories: a program is compiled alone, twice, and after 1..3 other programs in one process; all outputs must be identical after renumbering the generated label counters (lab<n>, <Type>_<n>) by first occurrence. Non-trivial: (a) >= 3 polymorphic type instances in the source (hash order can matter), (b) history length >= 2; distinct by source hash. (c) the real `scc` binary: `compile`, `focus`, `shrink`, `linearize` three times each with varied environment and working directory must print identical text, and the assembly files written by `scc codegen rv64|x86-64` in two different working directories must be identical; and every file written by `scc codegen --print-ir` for a program must be the same in a fresh directory and in a directory where another program was compiled before under the same file name (the same path overwritten by an unrelated program, the same path after a same-length edit of one literal digit, and `a/prog.sc` then `b/prog.sc` with both sources older than the first output). Hash seeds cannot be chosen: processes sample them.");
     ev.assumptions = vec!["(a) and (b) call the library functions the CLI calls; (c) runs the binary built from the same tree".into()];
     let cfg = cfg_for(ctx);
     let mut report = Report { violations: vec![], infra_errors: vec![] };
